@@ -261,3 +261,18 @@ def mock(name: str) -> str:
 
 def harness_text(rel: str) -> str:
     return (VERIF / "harness" / rel).read_text()
+
+
+def slice_between(path, start_marker: str, end_marker: str) -> str:
+    """Verbatim statement range of a file: from the line containing start_marker through the line containing
+    end_marker (each must occur exactly once, in that order). For logic that sits inline inside a large async fn."""
+    src = Path(path).read_text()
+    if src.count(start_marker) != 1 or src.count(end_marker) != 1:
+        raise Inconclusive(f"slice_between: markers occur {src.count(start_marker)}/{src.count(end_marker)} times in {path} (expected 1/1)")
+    a = src.index(start_marker)
+    b = src.index(end_marker)
+    if b < a:
+        raise Inconclusive("slice_between: end marker before start marker")
+    a = src.rfind("\n", 0, a) + 1
+    b = src.find("\n", b)
+    return src[a:b] + "\n"
